@@ -1,7 +1,7 @@
 (* C11 - Coins already on the orbiter account never alter, fund or block a transfer. *)
 From Coq Require Import String List ZArith Bool.
 From Orbiter Require Import Lib.Res Gen.Constants Model.Ids Model.Env Model.Payload Model.State Model.Pipeline
-     Proofs.Ledger Proofs.PipelineProofs Proofs.TransferProps Proofs.Gates Props.Examples.
+     Proofs.Ledger Proofs.PipelineProofs Proofs.TransferProps Proofs.Gates Proofs.GasProofs Props.Examples Props.OpenFindings.
 Import ListNotations.
 Open Scope string_scope.
 Open Scope Z_scope.
@@ -17,6 +17,36 @@ Theorem C11_cannot_block : forall cfg e w l2 p,
   rr_out (recv cfg e {| w_o := w_o w; w_l := l2 |} p []) = OAckOk.
 Proof. exact prior_balance_irrelevant. Qed.
 Print Assumptions C11_cannot_block.
+
+(* The theorems of this file speak of [recv]: the receive path on a chain none of whose Hyperlane post-dispatch
+   hooks charges the sender for gas.  On a chain with such hooks ([recv_gas g], any g) the packets whose
+   forwarding does not go through one are handled identically, so the theorems apply to them as they stand ... *)
+Theorem C11_hooks_same : forall g cfg e w p tape,
+  pkt_gas_free g p = true -> recv_gas g cfg e w p tape 0 = recv cfg e w p tape.
+Proof. intros g cfg e w p tape H. exact (recv_gas_same g cfg e w p tape 0 H). Qed.
+Print Assumptions C11_hooks_same.
+Theorem C11_cannot_block_hooks : forall g cfg e w l2 p,
+  wf_cfg cfg -> pkt_gas_free g p = true ->
+  rr_out (recv_gas g cfg e w p [] 0) = OAckOk ->
+  (forall d, 0 <= bal (w_l w) (cfg_orbiter cfg) d) -> (forall d, 0 <= bal l2 (cfg_orbiter cfg) d) ->
+  rr_out (recv_gas g cfg e {| w_o := w_o w; w_l := l2 |} p [] 0) = OAckOk.
+Proof.
+  intros g cfg e w l2 p Hwf Hg.
+  rewrite (recv_gas_same g cfg e w p [] 0 Hg), (recv_gas_same g cfg e {| w_o := w_o w; w_l := l2 |} p [] 0 Hg).
+  exact (prior_balance_irrelevant cfg e w l2 p Hwf).
+Qed.
+Print Assumptions C11_cannot_block_hooks.
+(* ... and through a hook that does charge, C11 is FALSE of the code as it is (open finding 17): the hook is
+   paid out of whatever lies on the orbiter account in its denomination *)
+Theorem C11_open_gas_hook :
+  exists g cfg e w l2 p,
+    wf_cfg cfg /\
+    (forall d, 0 <= bal (w_l w) (cfg_orbiter cfg) d) /\ (forall d, 0 <= bal l2 (cfg_orbiter cfg) d) /\
+    rr_out (recv_gas g cfg e w p [] 0) = OAckOk /\
+    rr_out (recv_gas g cfg e {| w_o := w_o w; w_l := l2 |} p [] 0) <> OAckOk /\
+    bal (w_l (rr_world (recv_gas g cfg e w p [] 0))) (cfg_orbiter cfg) "ufoo" <> bal (w_l w) (cfg_orbiter cfg) "ufoo".
+Proof. exact open_C11_gas_hook. Qed.
+Print Assumptions C11_open_gas_hook.
 
 (* and the two runs do the same thing: the same calls with the same requests after the sweep (so
    the same fee credits, the same amount and parameters forwarded), the same movements after the
